@@ -164,7 +164,10 @@ def _crc_a(data):
     return crc_a_bytes(data)
 
 
-REG_TXMODE, REG_RXMODE = 0x6302, 0x6303
+REG_TXMODE, REG_RXMODE, REG_TXAUTO = 0x6302, 0x6303, 0x6305
+# CIU_TxMode / CIU_RxMode (PN53x user manuals, CIU register description): bits 6..4 Tx/RxSpeed, bits 1..0 Tx/RxFraming
+CIU_SPEED = {106: 0, 212: 1, 424: 2, 848: 3}
+CIU_FRAMING = {"A": 0, "active": 1, "F": 2, "B": 3}
 REG_FIFODATA, REG_FIFOLEVEL, REG_COMMIRQ, REG_DIVIRQ, REG_COMMAND = 0x6339, 0x633A, 0x6334, 0x6335, 0x6331
 
 FIRMWARE = {"pn531": b"\x03\x04", "pn532": b"\x32\x01\x06\x07", "pn533": b"\x33\x02\x07\x07",
@@ -206,6 +209,28 @@ class SimPn53x(object):
         self.tag = None
         self.air = None
         self.chip_checked_crc = 0
+        # optional remote device in the field that talks ONE bit rate / technology (C13, target variants):
+        # card = dict(send="848B", recv="848B", active=False).  InCommunicateThru sends with the CIU as it is
+        # configured: a device that does not understand the frame stays silent and the command times out (01h).
+        self.card = None
+
+    def discovered(self, brty, active=False):
+        """CIU state as the firmware leaves it after it found / activated a target of that bit rate and technology"""
+        sp = CIU_SPEED[int(brty[:-1])] << 4
+        fr = CIU_FRAMING["active" if active else brty[-1]]
+        self.regs[REG_TXMODE] = (self.regs.get(REG_TXMODE, 0) & 0x8C) | sp | fr
+        self.regs[REG_RXMODE] = (self.regs.get(REG_RXMODE, 0) & 0x8C) | sp | fr
+        self.regs[REG_TXAUTO] = (self.regs.get(REG_TXAUTO, 0) & 0xBF) | (0x40 if brty[-1] == "A" else 0)
+
+    def card_hears(self):
+        """is the CIU set up for the bit rate, framing and modulation the remote device in the field talks?"""
+        c = self.card
+        tx, rx, txa = (self.regs.get(r, 0) for r in (REG_TXMODE, REG_RXMODE, REG_TXAUTO))
+        ftx = CIU_FRAMING["active" if c["active"] else c["send"][-1]]
+        frx = CIU_FRAMING["active" if c["active"] else c["recv"][-1]]
+        return ((tx >> 4) & 7 == CIU_SPEED[int(c["send"][:-1])] and (rx >> 4) & 7 == CIU_SPEED[int(c["recv"][:-1])]
+                and tx & 3 == ftx and rx & 3 == frx
+                and bool(txa & 0x40) == (c["send"][-1] == "A"))     # Force100ASK: Type A modulation only
 
     # ---- scripting -------------------------------------------------------------------------
     def arm(self, fault=None):
@@ -315,6 +340,8 @@ class SimPn53x(object):
                 return (b"\x01\x01" + bytes(t["sens_res"]) + bytes(t["sel_res"]) +
                         bytes([len(t["uid"])]) + bytes(t["uid"]))
             return b"\x00"
+        if code == 0x42 and self.card is not None and not self.card_hears():
+            return b"\x01"                                                    # nobody answered: RF time-out
         if code == 0x42 and self.air is not None:
             air = bytes(self.air)
             if self.regs.get(REG_RXMODE, 0) & 0x80:
